@@ -46,6 +46,8 @@ func (c *Channel) read() {
 		verifYield("R_exit")
 
 		c.readLoopExited = true
+
+		close(c.readerDone)
 	}()
 
 	for {
